@@ -40,6 +40,8 @@ type Imp struct {
 	To   int    `json:"to"`
 	Kind int    `json:"kind"`          // see spell()
 	Ver  string `json:"ver,omitempty"` // version suffix on a full remote spelling (master/main/develop are all "the default")
+	Lay  []int  `json:"lay,omitempty"` // layout lines written before this import line, see layLine()
+	Suf  int    `json:"suf,omitempty"` // 1 trailing spaces, 2 trailing comment, 3 `~sysl` mode, 4 two spaces after `import`, 5 TAB after `import`
 }
 type Spec struct {
 	Dirs   [][]string `json:"dirs"` // directory segments of file i
@@ -47,7 +49,30 @@ type Spec struct {
 	Max    int        `json:"max"`              // --max-import-depth
 	Remote []bool     `json:"remote,omitempty"` // file i lives in the remote repository //h.co/o/r (remote-style, versioned imports)
 	BsRoot bool       `json:"bsroot,omitempty"` // the root is named with backslashes (d\root.sysl); others import it with slashes
+	Tail   [][]int    `json:"tail,omitempty"`   // layout lines between the last import line and the first application, per file
+	CRLF   []bool     `json:"crlf,omitempty"`   // file i has CRLF line ends
 }
+
+// layLine: the lines the grammar allows inside the import section besides import statements
+func layLine(k int) string {
+	switch k {
+	case 0:
+		return ""
+	case 1:
+		return "   "
+	case 2:
+		return "\t"
+	case 3:
+		return "# note"
+	case 4:
+		return "    # indented note"
+	default:
+		return " \t "
+	}
+}
+
+const nLay = 6
+
 
 const remoteRepo = "//h.co/o/r"
 
@@ -128,11 +153,35 @@ func (s *Spec) spell(from, to, kind int, ver string) string {
 func (s *Spec) content(i int) string {
 	var sb strings.Builder
 	for _, im := range s.Imps[i] {
-		fmt.Fprintf(&sb, "import %s\n", s.spell(i, im.To, im.Kind, im.Ver))
+		for _, k := range im.Lay {
+			sb.WriteString(layLine(k) + "\n")
+		}
+		kw, tail := "import ", ""
+		switch im.Suf {
+		case 1:
+			tail = "  "
+		case 2:
+			tail = " # note"
+		case 3:
+			tail = " ~sysl"
+		case 4:
+			kw = "import  "
+		case 5:
+			kw = "import\t"
+		}
+		sb.WriteString(kw + s.spell(i, im.To, im.Kind, im.Ver) + tail + "\n")
+	}
+	if i < len(s.Tail) {
+		for _, k := range s.Tail[i] {
+			sb.WriteString(layLine(k) + "\n")
+		}
 	}
 	// every file re-opens the shared app Common (its source contexts record the merge order)
 	// and defines its own app
 	fmt.Fprintf(&sb, "Common:\n    ...\nA%d:\n    E%d:\n        ...\n", i, i)
+	if i < len(s.CRLF) && s.CRLF[i] {
+		return strings.ReplaceAll(sb.String(), "\n", "\r\n")
+	}
 	return sb.String()
 }
 
@@ -144,6 +193,22 @@ func (s *Spec) graph() [][]int {
 		}
 	}
 	return g
+}
+
+// the graph a scan for the literal prefix "import " sees: statements written `import<TAB>path` are missing
+func (s *Spec) graphNoTab() ([][]int, bool) {
+	g := make([][]int, s.n())
+	any := false
+	for i, l := range s.Imps {
+		for _, im := range l {
+			if im.Suf == 5 {
+				any = true
+				continue
+			}
+			g[i] = append(g[i], im.To)
+		}
+	}
+	return g, any
 }
 
 // ---------------------------------------------------------------- gate reader
@@ -877,6 +942,10 @@ func judge(c *common.Ctx, s *Spec, v verdict, o Obs, rp Replay) bool {
 		}
 		return false
 	}
+	if g2, any := s.graphNoTab(); any && s.Max == 0 && eqInts(o.Final, preorder(g2, func(int) bool { return true })) {
+		c.Fail("import-tab-separator", fmt.Sprintf("processed %s, the closure is %s: an import statement written with a TAB after the keyword is accepted by the grammar but not followed (%s)", names(s, o.Final), names(s, v.spec), where), rp)
+		return false
+	}
 	c.Fail("closure:"+classify(v.spec, o.Final), fmt.Sprintf("processed %s, the import closure in textual depth-first order is %s (%s)", names(s, o.Final), names(s, v.spec), where), rp)
 	return false
 }
@@ -922,10 +991,10 @@ func genRandom(r *common.Rng, maxN int) *Spec {
 			default:
 				to = r.Intn(n)
 			}
-			s.Imps[i] = append(s.Imps[i], Imp{to, kind(r), ""})
+			s.Imps[i] = append(s.Imps[i], Imp{to, kind(r), "", nil, 0})
 		}
 		if r.Chance(1, 10) && len(s.Imps[i]) > 0 { // the same file imported twice by one parent, spelled differently
-			s.Imps[i] = append(s.Imps[i], Imp{s.Imps[i][0].To, kind(r), ""})
+			s.Imps[i] = append(s.Imps[i], Imp{s.Imps[i][0].To, kind(r), "", nil, 0})
 		}
 	}
 	if r.Chance(1, 2) {
@@ -972,6 +1041,67 @@ func decorate(r *common.Rng, s *Spec) *Spec {
 	if len(s.Dirs[0]) > 0 && r.Chance(1, 3) {
 		s.BsRoot = true
 	}
+	return layout(r, s)
+}
+
+// layout: the import section of half of the inputs is untidy - blank, white-space-only and comment lines
+// (column 0 and indented) before / between / after the import lines, trailing spaces, trailing comments,
+// a mode suffix, two spaces after the keyword, CRLF line ends
+func layout(r *common.Rng, s *Spec) *Spec {
+	if r.Chance(1, 2) {
+		return s
+	}
+	n := s.n()
+	s.Tail = make([][]int, n)
+	s.CRLF = make([]bool, n)
+	for i := 0; i < n; i++ {
+		for j := range s.Imps[i] {
+			if r.Chance(1, 2) {
+				for k := 1 + r.Intn(2); k > 0; k-- {
+					s.Imps[i][j].Lay = append(s.Imps[i][j].Lay, r.Intn(nLay))
+				}
+			}
+			if r.Chance(1, 3) {
+				s.Imps[i][j].Suf = 1 + r.Intn(5)
+			}
+		}
+		if r.Chance(1, 3) {
+			s.Tail[i] = []int{r.Intn(nLay)}
+		}
+		s.CRLF[i] = r.Chance(1, 6)
+	}
+	return s
+}
+
+// diamonds in which a node lists the shared file BEFORE a sibling nobody else imports (and after it), both
+// textual orders of the two parents: with a stored import list that is filtered in place the merge order
+// would depend on which parent's read completes first
+func genDiamond(r *common.Rng, variant int) *Spec {
+	// 0 root, 1 p, 2 q, 3 x (shared), 4 c (only under p), 5 e (only under q), 6 y (under x)
+	s := &Spec{Dirs: make([][]string, 7), Imps: make([][]Imp, 7)}
+	for i := range s.Dirs {
+		s.Dirs[i] = []string{}
+	}
+	im := func(to int) Imp { return Imp{to, 0, "", nil, 0} }
+	if variant&1 == 0 {
+		s.Imps[0] = []Imp{im(1), im(2)}
+	} else {
+		s.Imps[0] = []Imp{im(2), im(1)}
+	}
+	if variant&2 == 0 {
+		s.Imps[1] = []Imp{im(3), im(4)}
+	} else {
+		s.Imps[1] = []Imp{im(4), im(3)}
+	}
+	if variant&4 == 0 {
+		s.Imps[2] = []Imp{im(3), im(5)}
+	} else {
+		s.Imps[2] = []Imp{im(5), im(3)}
+	}
+	s.Imps[3] = []Imp{im(6), im(0)}
+	if r.Chance(1, 2) {
+		return layout(r, s)
+	}
 	return s
 }
 
@@ -987,7 +1117,7 @@ func genUnequal(r *common.Rng) *Spec {
 		first = id
 		for j := 0; j < k; j++ {
 			if j > 0 {
-				s.Imps[id-1] = append(s.Imps[id-1], Imp{id, kind(r), ""})
+				s.Imps[id-1] = append(s.Imps[id-1], Imp{id, kind(r), "", nil, 0})
 			}
 			id++
 		}
@@ -999,13 +1129,13 @@ func genUnequal(r *common.Rng) *Spec {
 	id++
 	tf, _ := chain(tail)
 	if r.Bool() {
-		s.Imps[0] = []Imp{{sf, kind(r), ""}, {lf, kind(r), ""}}
+		s.Imps[0] = []Imp{{sf, kind(r), "", nil, 0}, {lf, kind(r), "", nil, 0}}
 	} else {
-		s.Imps[0] = []Imp{{lf, kind(r), ""}, {sf, kind(r), ""}}
+		s.Imps[0] = []Imp{{lf, kind(r), "", nil, 0}, {sf, kind(r), "", nil, 0}}
 	}
-	s.Imps[sl] = append(s.Imps[sl], Imp{x, kind(r), ""})
-	s.Imps[ll] = append(s.Imps[ll], Imp{x, kind(r), ""})
-	s.Imps[x] = append(s.Imps[x], Imp{tf, kind(r), ""})
+	s.Imps[sl] = append(s.Imps[sl], Imp{x, kind(r), "", nil, 0})
+	s.Imps[ll] = append(s.Imps[ll], Imp{x, kind(r), "", nil, 0})
+	s.Imps[x] = append(s.Imps[x], Imp{tf, kind(r), "", nil, 0})
 	// x is at depth short+1 / long+1; the tail's first file at short+2
 	s.Max = long + 2 + r.Intn(tail)
 	if r.Chance(1, 4) {
@@ -1034,14 +1164,14 @@ func genLayered(r *common.Rng) *Spec {
 		for _, f := range lay[l] {
 			for _, k := range lay[l+1] {
 				if r.Chance(2, 3) {
-					s.Imps[f] = append(s.Imps[f], Imp{k, kind(r), ""})
+					s.Imps[f] = append(s.Imps[f], Imp{k, kind(r), "", nil, 0})
 				}
 			}
 		}
 		// every file of the next layer has at least one parent
 		for _, k := range lay[l+1] {
 			f := lay[l][r.Intn(len(lay[l]))]
-			s.Imps[f] = append(s.Imps[f], Imp{k, kind(r), ""})
+			s.Imps[f] = append(s.Imps[f], Imp{k, kind(r), "", nil, 0})
 		}
 	}
 	s.Max = r.Intn(layers + 2)
@@ -1055,7 +1185,7 @@ func genMask(n int, mask uint64, desc bool, max int) *Spec {
 		s.Dirs[i] = []string{}
 		for j := 0; j < n; j++ {
 			if mask&(1<<uint(i*n+j)) != 0 {
-				s.Imps[i] = append(s.Imps[i], Imp{j, 0, ""})
+				s.Imps[i] = append(s.Imps[i], Imp{j, 0, "", nil, 0})
 			}
 		}
 		if desc {
@@ -1202,6 +1332,30 @@ func (r *runner) histSpec(s *Spec, v verdict) {
 	if s.BsRoot {
 		c.Hist("spelling:backslash-root")
 	}
+	for i := range s.CRLF {
+		if s.CRLF[i] {
+			c.Hist("layout:crlf-file")
+		}
+	}
+	for i := range s.Tail {
+		for _, k := range s.Tail[i] {
+			c.Hist(fmt.Sprintf("layout:line-after-imports:%d", k))
+		}
+	}
+	for _, l := range s.Imps {
+		for j, im := range l {
+			for _, k := range im.Lay {
+				if j == 0 {
+					c.Hist(fmt.Sprintf("layout:line-before-first-import:%d", k))
+				} else {
+					c.Hist(fmt.Sprintf("layout:line-between-imports:%d", k))
+				}
+			}
+			if im.Suf > 0 {
+				c.Hist(fmt.Sprintf("layout:suffix:%d", im.Suf))
+			}
+		}
+	}
 	for i, l := range s.Imps {
 		for _, im := range l {
 			if s.remote(im.To) && (!s.remote(i) || im.Kind == 5) {
@@ -1344,23 +1498,36 @@ Local Open Scope N_scope.`
 
 	// 0. the regression corpus: the depth-limit witness of the design round, and small hand shapes
 	witness := &Spec{Dirs: [][]string{{}, {}, {}, {}, {}, {}}, Max: 4,
-		Imps: [][]Imp{{{1, 0, ""}, {2, 0, ""}}, {{4, 0, ""}}, {{3, 0, ""}}, {{4, 0, ""}}, {{5, 0, ""}}, {}}}
+		Imps: [][]Imp{{{1, 0, "", nil, 0}, {2, 0, "", nil, 0}}, {{4, 0, "", nil, 0}}, {{3, 0, "", nil, 0}}, {{4, 0, "", nil, 0}}, {{5, 0, "", nil, 0}}, {}}}
 	r.allSchedules(witness, 200)
 	wu := *witness
 	wu.Max = 0
 	r.allSchedules(&wu, 200)
 	// remote-style versioned spellings of one file, and a backslash-named root that is imported back
 	remoteDiamond := &Spec{Dirs: [][]string{{}, {}, {"d"}, {"k"}}, Remote: []bool{false, false, true, true},
-		Imps: [][]Imp{{{1, 0, ""}, {2, 0, "master"}, {2, 1, ""}}, {{2, 1, "main"}, {3, 0, "develop"}}, {{3, 0, ""}, {2, 2, ""}}, {{2, 3, ""}, {3, 5, "master"}}}}
+		Imps: [][]Imp{{{1, 0, "", nil, 0}, {2, 0, "master", nil, 0}, {2, 1, "", nil, 0}}, {{2, 1, "main", nil, 0}, {3, 0, "develop", nil, 0}}, {{3, 0, "", nil, 0}, {2, 2, "", nil, 0}}, {{2, 3, "", nil, 0}, {3, 5, "master", nil, 0}}}}
 	r.allSchedules(remoteDiamond, 200)
 	bsRoot := &Spec{Dirs: [][]string{{"d"}, {"d"}, {}}, BsRoot: true,
-		Imps: [][]Imp{{{1, 2, ""}, {2, 3, ""}}, {{0, 0, ""}, {2, 0, ""}}, {{0, 2, ""}}}}
+		Imps: [][]Imp{{{1, 2, "", nil, 0}, {2, 3, "", nil, 0}}, {{0, 0, "", nil, 0}, {2, 0, "", nil, 0}}, {{0, 2, "", nil, 0}}}}
 	r.allSchedules(bsRoot, 200)
+	// untidy import sections: every kind of layout line before the first and between import lines, every suffix
+	untidy := &Spec{Dirs: [][]string{{}, {}, {}, {}, {}}, CRLF: []bool{false, true, false, false, false}, Tail: [][]int{{4}, {1}, nil, nil, nil},
+		Imps: [][]Imp{{{1, 0, "", []int{1}, 1}, {2, 0, "", []int{4}, 2}, {3, 1, "", []int{0, 2}, 3}},
+			{{4, 0, "", []int{3}, 4}, {3, 0, "", []int{5, 1}, 0}}, {{4, 2, "", []int{2}, 1}, {0, 0, "", []int{4, 4}, 0}}, {{4, 0, "", []int{0}, 0}}, nil}}
+	r.allSchedules(untidy, 40)
+	// an import statement with a TAB after the keyword (fixes/C05-1; without it the oracle reports import-tab-separator)
+	tabSep := &Spec{Dirs: [][]string{{}, {}, {}}, Imps: [][]Imp{{{1, 0, "", nil, 5}, {2, 0, "", nil, 0}}, nil, nil}}
+	r.allSchedules(tabSep, 10)
+	for v := 0; v < 8; v++ {
+		d := genDiamond(c.Rng, v)
+		r.allSchedules(d, 8)
+		r.schedules(d, 2)
+	}
 	diamondCycle := &Spec{Dirs: [][]string{{}, {"d"}, {"d", "e"}, {"k"}}, Max: 0,
-		Imps: [][]Imp{{{1, 0, ""}, {2, 2, ""}, {0, 0, ""}}, {{3, 1, ""}, {1, 4, ""}}, {{3, 3, ""}, {0, 2, ""}}, {{1, 5, ""}, {3, 0, ""}}}}
+		Imps: [][]Imp{{{1, 0, "", nil, 0}, {2, 2, "", nil, 0}, {0, 0, "", nil, 0}}, {{3, 1, "", nil, 0}, {1, 4, "", nil, 0}}, {{3, 3, "", nil, 0}, {0, 2, "", nil, 0}}, {{1, 5, "", nil, 0}, {3, 0, "", nil, 0}}}}
 	r.allSchedules(diamondCycle, 200)
 
-	nRand, nUnequal, nLayered, nSched, maxN := 70, 25, 25, 3, 8
+	nRand, nUnequal, nLayered, nSched, maxN := 60, 20, 20, 3, 8
 	if c.Thorough() {
 		nRand, nUnequal, nLayered, nSched, maxN = 900, 300, 300, 5, 10
 	}
